@@ -29,7 +29,7 @@ Import ListNotations.
 (* ======================================================================================== *)
 
 (* Fun -> Core, as the property words it (every accepted program).  FALSE of the faithful model: before fix
-   <commitcap> by variable capture (C12_fun2core_typing_refuted_before_fix), and still by a call of `main`
+   d5d4151 by variable capture (C12_fun2core_typing_refuted_before_fix), and still by a call of `main`
    (C12_fun2core_call_main_typing_refuted). *)
 Definition fun2core_preserves_typing_unguarded : Prop :=
   forall src p, Check.check src = COk p ->
@@ -77,7 +77,7 @@ Definition codegen_total_rv : Prop :=
 (* Fun -> Core                                                                              *)
 (* ======================================================================================== *)
 
-(* REGRESSION (former finding capture-under-binder-typing, fixed in /repo by <commitcap>: a continuation that mentions a
+(* REGRESSION (former finding capture-under-binder-typing, fixed in /repo by d5d4151: a continuation that mentions a
    name is kept outside of a let / pattern binder of that name).
    `def h(n: i64): i64 { label a { let a: i64 = n + 1; a * 2 } }` is accepted - by the model of the checker and by the
    declarative typing specification - and its translation BEFORE THE FIX ([compile_prog_before_fix])
@@ -149,7 +149,7 @@ Print Assumptions C12_fun2core_preserves_typing_refuted.
           declaration order with pairwise distinct parameters; the type of every let variable, goto target,
           label, argument position and definition parameter is declared) - ALL term forms: data and codata, `new`,
           destructors, labels/goto, consumer arguments;
-     (NO capture clause: until fix <commitcap> of /repo the guard contained NOT shadowing_risk, the syntactic detector of
+     (NO capture clause: until fix d5d4151 of /repo the guard contained NOT shadowing_risk, the syntactic detector of
           the former finding capture-under-binder; the repaired translation never places a continuation under a let
           variable / clause parameter whose name is free in it - it names the continuation first -, and the proof follows
           it: lemma tw_guard of Proof/Fun2CoreTyMain.v, KT_rebind of Proof/Fun2CoreTyShare.v; shadowing is allowed);
@@ -220,7 +220,7 @@ Print Assumptions C12_fun2core_pre_check.
    with `new`, destructors and by-name values) satisfy the guard; the conclusion and the side conditions of the
    focusing theorem are evaluated too.  The witnesses of the finding call-to-main and of the former finding
    main-non-integer-result are outside the guard; the two capture witnesses (former finding capture-under-binder, repaired by
-   <commitcap>; the guard has no capture clause any more) are INSIDE although [shadowing_risk_prog] fires on them. *)
+   d5d4151; the guard has no capture clause any more) are INSIDE although [shadowing_risk_prog] fires on them. *)
 Theorem C12_fun2core_fragment2_examples :
   (f2c_ok ex_calls = true /\ f2c_ok ex_shared = true /\ f2c_ok ex_data = true /\ f2c_ok ex_labels = true /\ f2c_ok ex_codata = true) /\
   (2 <= List.length (cpdefs (compiled_or_empty ex_shared)) - 2)%nat /\
